@@ -160,8 +160,9 @@ pub fn replay(args: &Args) {
             Err(e) => (Err(format!("{e:?}")), None),
             Ok(game) => {
                 let dump = canon_dump(&game.verif_dump());
+                let count = game.num_infosets();
                 let ex = if light { Ok(()) } else { util::catch(std::panic::AssertUnwindSafe(|| exercise(&t2, &game))).unwrap_or_else(|m| Err(format!("panic: {m}"))) };
-                (Ok(dump), Some(ex))
+                (Ok((dump, count)), Some(ex))
             }
         });
         let mut bad = Vec::new();
@@ -170,7 +171,14 @@ pub fn replay(args: &Args) {
         rules_sorted.sort();
         match res {
             Err(msg) => bad.push(json!({"class": "panic", "what": "from_root panicked", "observed": msg})),
-            Ok((Ok(dump), ex)) => {
+            Ok((Ok((dump, count)), ex)) => {
+                if model_err == "none" && rules.is_empty() {
+                    let want = case["build"]["multi"][0].as_array().map_or(0, |a| a.len()) + case["build"]["multi"][1].as_array().map_or(0, |a| a.len());
+                    if count != want {
+                        bad.push(json!({"class": "count", "what": "num_infosets() is not the number of multi-action information sets of the two players",
+                            "observed": count, "specified": want}));
+                    }
+                }
                 if !rules.is_empty() {
                     bad.push(json!({"class": format!("accepts:{}", rules_sorted.join("+")), "what": "accepted a tree outside the documented class", "rules": rules}));
                 } else {
